@@ -197,6 +197,13 @@ func (p *Proxy) call(ctx context.Context, m *GoMethod, args ...Object) Object {
 				// Create a nil interface value with the correct type
 				inputs = append(inputs, reflect.New(paramType).Elem())
 			} else {
+				switch paramType.Kind() {
+				case reflect.Pointer, reflect.Slice, reflect.Map, reflect.Func, reflect.Chan:
+				default:
+					// nil is not a value of this type: the method must not
+					// be handed a zero in its place
+					return TypeErrorf("type error: failed to convert argument %d in %s() call: nil is not a %s", i, methodName, paramType)
+				}
 				inputs = append(inputs, reflect.Zero(paramType))
 			}
 			argIndex++
@@ -206,14 +213,32 @@ func (p *Proxy) call(ctx context.Context, m *GoMethod, args ...Object) Object {
 		if err != nil {
 			return TypeErrorf("type error: failed to convert argument %d in %s() call: %s", i, methodName, err)
 		}
-		inputs = append(inputs, reflect.ValueOf(input))
+		inputValue := reflect.ValueOf(input)
+		// What the converter produced has to be a value of the parameter's
+		// type (reflect panics otherwise): a script value without a Go
+		// counterpart, or a proxy of another struct type, is refused
+		if paramType := m.method.Type.In(i); !inputValue.IsValid() || !inputValue.Type().AssignableTo(paramType) {
+			return TypeErrorf("type error: failed to convert argument %d in %s() call: %s cannot be used as %s", i, methodName, args[argIndex].Type(), paramType)
+		}
+		inputs = append(inputs, inputValue)
 		argIndex++
+	}
+	if argIndex < len(args) {
+		// Arguments that no parameter takes are not dropped silently
+		return ArgsErrorf("args error: %s() takes %d arguments, but %d were given",
+			methodFullName, argIndex, len(args))
 	}
 	if len(inputs) < minArgs {
 		return ArgsErrorf("args error: %s() requires %d arguments, but %d were given",
 			methodFullName, minArgs, len(inputs))
 	}
-	outputs := m.method.Func.Call(inputs)
+	var outputs []reflect.Value
+	if isVariadic && len(inputs) == numIn {
+		// The variadic parameter was given as a list
+		outputs = m.method.Func.CallSlice(inputs)
+	} else {
+		outputs = m.method.Func.Call(inputs)
+	}
 	if len(outputs) == 0 {
 		return Nil
 	}
